@@ -704,7 +704,7 @@ func GoFieldListFunction(env *Zlisp, name string, args []Sexp) (Sexp, error) {
 	}
 	h, isHash := args[0].(*SexpHash)
 	if !isHash {
-		return SexpNull, fmt.Errorf("hash/record required, but saw %T/val=%v", args[0], args[0])
+		return SexpNull, fmt.Errorf("hash/record required, but saw %T/val=%s", args[0], showForErr(args[0]))
 	}
 
 	if !h.GoStructFactory.hasShadowStruct {
